@@ -307,8 +307,45 @@ def rule_r6_step_by(text, fired):
         fired['R6'] = fired.get('R6', 0) + 1
 
 
+ENUMERATE = re.compile(r"\bfor\s+\(\s*(?P<i>\w+)\s*,\s*(?P<c>\w+)\s*\)\s+in\s+(?P<s>[\w.]+)\s*\.\s*iter\(\)\s*\.\s*enumerate\(\)\s*\{")
+
+
+def rule_r6_enumerate(text, fired):
+    """for (I, C) in S.iter().enumerate() { BODY }  ->  { let mut I: usize = 0; while I < S.len() { let C = &S[I]; BODY I += 1; } }
+    (BODY without `continue`)."""
+    while True:
+        code = blank_noncode(text)
+        m = ENUMERATE.search(code)
+        if not m:
+            return text
+        ob = m.end() - 1
+        cb = match_close(code, ob)
+        if re.search(r'\bcontinue\b', code[ob + 1:cb]):
+            raise Unsupported('R6 enumerate: loop body contains `continue`')
+        i, c, sq = m.group('i'), m.group('c'), m.group('s')
+        text = text[:cb] + ' %s += 1; } }' % i + text[cb + 1:]
+        text = splice(text, m.start(), m.end(), '{ let mut %s: usize = 0; while %s < %s.len() { let %s = &%s[%s];' % (i, i, sq, c, sq, i))
+        fired['R6'] = fired.get('R6', 0) + 1
+
+
+def rule_r8_anon_loop_var(text, fired):
+    """for _ in A..B  ->  for anon_i in A..B  (naming the anonymous loop variable so that invariants can mention it)"""
+    code = blank_noncode(text)
+    out = []
+    last = 0
+    for m in re.finditer(r'\bfor\s+_\s+in\b', code):
+        out.append(text[last:m.start()])
+        out.append('for anon_i in')
+        last = m.end()
+        fired['R8'] = fired.get('R8', 0) + 1
+    out.append(text[last:])
+    return ''.join(out)
+
+
 def rule_r6_idioms(text, fired):
+    text = rule_r8_anon_loop_var(text, fired)
     text = rule_r6_step_by(text, fired)
+    text = rule_r6_enumerate(text, fired)
     changed = True
     while changed:
         changed = False
